@@ -390,3 +390,52 @@ def rule_lookahead(prog):
                          "press after the tap-hold key is examined - rolled keys no longer trigger the hold / the early tap"
                          % (f.norm.split("::{closure")[0].split("::")[-1], bad[0][1]))
     return res
+
+
+def rule_slot_index(prog):
+    """R-WAIT-SLOT (C05): the three outcome functions agree on how the slot index of an undecided key is read.
+
+    `waiting_into_hold`, `waiting_into_tap` and `waiting_into_timeout` receive `idx`: -1 means the main `waiting` slot,
+    0.. an entry of `extra_waiting`. Each reads the slot and then clears it, both under `idx < 0`. The six tests are
+    copies of one another; if one of them becomes `idx <= 0`, entry 0 of extra_waiting is treated as the main slot:
+    the wrong undecided key is dropped (it gets no outcome at all) and the decided one stays and fires a second time."""
+    from kq.core import Resolver, const_val, is_const
+    res = RuleResult("R-WAIT-SLOT", "every test of the waiting-slot index in the outcome functions separates -1 from 0..", floor=6)
+    n = 0
+    for name in ("waiting_into_hold", "waiting_into_tap", "waiting_into_timeout", "drop_waiting"):
+        f = prog.fn_opt("kanata_keyberon::layout::Layout::" + name)
+        if f is None:
+            if name != "drop_waiting":
+                res.viol("anchor/" + name, "keyberon/src/layout.rs", "Layout::%s not found" % name)
+            continue
+        params = {i: f.local_name(i) for i in range(1, f.nargs + 1)}
+        idxp = [i for i, nm in params.items() if nm == "idx"]
+        if not idxp:
+            continue
+        res.fn(f)
+        k = 0
+        for bi, si, st in f.all_rvalues():
+            rv = st["rv"]
+            if rv["k"] != "bin" or rv["op"] not in ("Lt", "Le", "Gt", "Ge", "Eq", "Ne"):
+                continue
+            r = Resolver(f).root(rv["a"])
+            if r[0] != "param" or r[1] != idxp[0] or not is_const(rv["b"]):
+                continue
+            c = const_val(rv["b"])
+            if c is not None and c >= 128:
+                c -= 256          # i8 constants are recorded as their bit pattern
+            pred = {"Lt": lambda x: x < c, "Le": lambda x: x <= c, "Gt": lambda x: x > c, "Ge": lambda x: x >= c,
+                    "Eq": lambda x: x == c, "Ne": lambda x: x != c}[rv["op"]]
+            # any test that separates -1 (main slot) from every index 0.. is fine: `idx < 0`, `idx == -1`, `idx >= 0` ...
+            ok = c is not None and pred(-1) != pred(0) and pred(0) == pred(1) == pred(7)
+            key = "%s/test%s" % (name, "#%d" % k if k else "")
+            k += 1
+            n += 1
+            res.inst(key, where="%s:%s" % (f.file, f.line_of(bi, si)), test="idx %s %s" % (rv["op"], const_val(rv["b"])), ok=ok)
+            res.oblige(ok)
+            if not ok:
+                res.viol(key, "%s:%s" % (f.file, f.line_of(bi, si)),
+                         "%s tests the slot index with `idx %s %s`; the sibling tests (and the callers, which pass -1 for the main slot and "
+                         "0.. for extra_waiting) use `idx < 0`. Entry 0 of extra_waiting is then handled as the main slot: the key waiting "
+                         "there is dropped without an outcome and the decided key fires again later" % (name, rv["op"], const_val(rv["b"])))
+    return res
